@@ -2,8 +2,10 @@
 
 A vsched log is projected onto the event vocabulary of Model.Barrier / Model.XBarrier / Model.Eventual /
 Model.Future: API call/return lines written by the scenario, the test-and-set / clear of the object's
-spinlock (with the `P` snapshot taken at the clear), wait-list enqueue (E 50) and dequeue (E 52) events, and for
-futures the atomic loads / stores of the counter.  The driver accepts or rejects the projected trace."""
+spinlock (with the `P` snapshot taken at the clear), wait-list enqueue (E 50) and dequeue (E 52) events, for
+futures the atomic loads / stores of the counter and the begin / end of the callback, for barriers the loads / stores of
+the wait-list's futex generation word, for eventuals and futures ABT_*_free as an operation of the protocol (it takes
+the lock and never releases it).  The driver accepts or rejects the projected trace."""
 from . import t3
 
 KIND = {"ult": "u", "task": "t", "ext": "e"}
@@ -42,8 +44,12 @@ class _Proj:
 
     def freed(self, ev):
         """the scenario announces ABT_*_free of the object: the protocol ends there (free takes the lock and
-        releases the memory without unlocking)"""
+        releases the memory without unlocking) — for models without a `free` operation"""
         return ev["t"] == "S" and ev["txt"][:3] == ["apiCall", "free", self.obj]
+
+    def gone(self, ev):
+        """ABT_*_free has returned: nothing that follows can be an event of this object"""
+        return ev["t"] == "S" and ev["txt"][:3] == ["apiRet", "free", self.obj]
 
     def track(self, ev):
         """bookkeeping common to all objects; returns True if the event was consumed"""
@@ -92,7 +98,10 @@ def project_barrier(log, name="B0"):
     o_nw, s_nw = log.offs[("ABTI_barrier", "num_waiters")]
     o_wl = log.off("ABTI_barrier", "waitlist")
     o_head, s_head = log.offs[("ABTI_waitlist", "p_head")]
+    o_fut = o_wl + log.off("ABTI_waitlist", "futex")
     wl_loc = "%s+%d" % (name, o_wl)
+    holder = None          # actor whose test-and-set of the barrier lock succeeded last (None after the clear)
+    enqd = set()           # actors between their enqueue and the return of their wait
     nw0 = log.objs.get(name, {}).get("nw", "1")
     p.out.append("init %s %s" % (nw0, p.kinds()))
     p.src.append(0)
@@ -111,26 +120,47 @@ def project_barrier(log, name="B0"):
                 if txt[0] == "apiCall":
                     p.emit("call %d" % a, ev)
                 else:
+                    enqd.discard(a)
                     p.emit("ret %d %s" % (a, txt[3]), ev)
             elif txt[0] == "reinit" and len(txt) >= 4 and txt[1] == name:
                 p.emit("reinit %s %s" % (txt[2], txt[3]), ev)
         elif t == "E":
+            if ev["kind"] == 50 and ev["p1"] == wl_loc:
+                enqd.add(p.actor_of(ev))
             p.waitlist(ev, wl_loc)
         elif t == "A":
             oname, off = t3.split_loc(ev["loc"])
             if oname != name:
                 continue
             if off != o_lock:
+                a = p.actor_of(ev)
+                if ev["op"] == "load":
+                    if off == o_fut:
+                        # the futex generation word: a queued non-ULT waiter that holds the lock samples it before it
+                        # sleeps; every other load (the sleeper's re-check, the broadcaster's read) is an observation
+                        if a is not None and a == holder and a in enqd:
+                            p.emit("fsamp %d %d" % (a, ev["cur"]), ev)
+                        else:
+                            p.emit("obsF %d" % ev["cur"], ev)
+                    continue
                 # a store inside the critical section (futex word of the broadcast): its snapshot shows the plain fields
-                hx = p.snap_after(i) if ev["op"] != "load" else None
+                hx = p.snap_after(i)
                 if hx is not None:
                     p.emit("obs %d %d" % (t3.Log.snap_int(hx, o_cnt, s_cnt), t3.Log.snap_int(hx, o_nw, s_nw)), ev)
+                if off == o_fut and ev["op"] == "store":
+                    p.emit("obsF %d" % ev["cur"], ev)
+                    p.emit("fbump %d %d" % (a if a is not None else 999999, ev["a"]), ev)
+                else:
+                    p.emit("unexpected-write %s at %s+%d" % (ev["op"], name, off), ev)
                 continue
             a = p.actor_of(ev)
             op = ev["op"]
             if op == "tas":
+                if not ev["cur"]:
+                    holder = a
                 p.emit("acq %d %d" % (a if a is not None else 999999, 1 if ev["cur"] else 0), ev)
             elif op == "clear":
+                holder = None
                 hx = p.snap_after(i)
                 if hx is None:
                     p.emit("rel-without-snapshot", ev)
@@ -178,9 +208,11 @@ def project_eventual(log, name="E0"):
     attrs = log.objs.get(name, {})
     p.out.append("init %s %s %s" % (attrs.get("nbytes", "0"), attrs.get("v0", "-"), p.kinds()))
     p.src.append(0)
+    done = False
     for i, ev in enumerate(log.events):
-        if p.freed(ev):
+        if done:
             break
+        done = p.gone(ev)      # ABT_*_free returned: the `ret` below is the last event of this object
         if p.track(ev):
             continue
         t = ev["t"]
@@ -244,9 +276,11 @@ def project_future(log, name="F0"):
     attrs = log.objs.get(name, {})
     p.out.append("init %s %s %s" % (attrs.get("n", "0"), attrs.get("cb", "1"), p.kinds()))
     p.src.append(0)
+    done = False
     for i, ev in enumerate(log.events):
-        if p.freed(ev):
+        if done:
             break
+        done = p.gone(ev)      # ABT_*_free returned: the `ret` below is the last event of this object
         if p.track(ev):
             continue
         t = ev["t"]
@@ -263,6 +297,9 @@ def project_future(log, name="F0"):
                 else:
                     p.cur_op.pop(a, None)
                     p.emit("ret %d %s %s %s" % (a, op, txt[3], txt[4] if op == "test" else "0"), ev)
+            elif txt[0] == "cbBegin" and len(txt) >= 2 and txt[1] == name:
+                a = p.actor_of(ev)
+                p.emit("cbBegin %d" % (a if a is not None else 999999), ev)
             elif txt[0] == "cb" and len(txt) >= 2 and txt[1] == name:
                 a = p.actor_of(ev)
                 p.emit("cb %d %s" % (a if a is not None else 999999, " ".join(txt[2:])), ev)
